@@ -38,7 +38,7 @@ def shards(tier, seed):
 
 def floors(tier):
     f = {"moves:observed": 10000, "moves:with_effect": 4000, "circuits:initial": 100, "circuits:>=100_moves": 20, "solver_runs": 15,
-         "fixed_ops:tracked": 20000, "circuits:alternate_target_solver": 15}
+         "fixed_ops:tracked": 20000, "circuits:alternate_target_solver": 15, "circuits:register_index>=10": 3}
     for mv in MOVES:
         f["move:" + mv] = 200
     f["effect:add_emitter_cnot"] = 100
@@ -199,7 +199,12 @@ def run_moves(seedt, lmax, ctx, mon, m):
         circ = solver.initialization(solver.get_emission_assignment(n_photon, n_emitter), solver.get_measurement_assignment(n_photon, n_emitter))
         what = "EvolutionarySolver.initialization"
     else:
-        A = graphs.random_connected_graph(rng, int(rng.integers(2, 6)), 0.5)
+        if rng.random() < 0.3:
+            # eleven or more photons: register indices with two digits
+            A = graphs.named_graphs(int(rng.integers(11, 14)))["path"] if rng.random() < 0.5 else graphs.random_connected_graph(rng, int(rng.integers(11, 13)), 0.12)
+            ctx.count("circuits:register_index>=10")
+        else:
+            A = graphs.random_connected_graph(rng, int(rng.integers(2, 6)), 0.5)
         solver = make_solver(rng, m, A.shape[0], 1, hybrid=True, A=A)
         trs = TimeReversedSolver(target=solver.target, metric=solver.metric, compiler=solver.compiler)
         trs.solve()
